@@ -12,6 +12,7 @@ pub mod engine;
 pub mod oracle;
 pub mod pipefail;
 pub mod table;
+pub mod vlogptr;
 pub mod wal;
 pub mod walfail;
 pub mod yieldp;
